@@ -835,7 +835,8 @@ def check(case):
     # re-seeded per row with seed + row index shifts the rows of one seed into the next)
     if ran and entry in ('lp', 'hlp', 'flp'):
         with case.clause('neighbouring_seeds:' + entry):
-            for s0 in (seeds['A'], seeds['B']):
+            for s0 in (min(int(seeds['A']), 2 ** 31 - 2), min(int(seeds['B']), 2 ** 31 - 2)):
+                # (the neighbour s0 + 1 stays inside the range of the seed forms the case uses, numpy int32 among them)
                 a = np.asarray(call(s0, 4), dtype=float)
                 b = np.asarray(call(s0 + 1, 4), dtype=float)
                 case.equal(a.shape, b.shape, 'shapes of the starting points for seeds %d and %d' % (s0, s0 + 1), kind='shape')
